@@ -479,11 +479,18 @@ impl CoreInner {
 			entry.wal_number,
 		)?;
 
-		// Schedule async WAL cleanup
+		// Schedule async WAL cleanup. The bound is read from the manifest when the
+		// task RUNS, not captured here: a restore may rewind the WAL numbering in
+		// between, and a bound of the discarded timeline would then cover the
+		// rewound, active segment.
 		let wal_dir = self.wal.read().get_dir_path().to_path_buf();
-		let min_wal_to_keep = entry.wal_number + 1;
+		let manifest = Arc::clone(&self.level_manifest);
 
 		tokio::spawn(async move {
+			let min_wal_to_keep = match manifest.read() {
+				Ok(manifest) => manifest.get_log_number(),
+				Err(_) => return,
+			};
 			match cleanup_old_segments(&wal_dir, min_wal_to_keep) {
 				Ok(count) if count > 0 => {
 					log::info!(
